@@ -318,6 +318,19 @@ static void Doom(ProcResult::End kind, const std::string& detail) {
   SwitchOut();
 }
 
+// Called by the arena when one simulated process went past its memory budget.
+void SimArenaExhausted() {
+  if (g_k && g_k->proc && g_in_sim) {
+    KernelMode km;
+    Doom(ProcResult::kTerminate, "memory budget exhausted: the process allocated more than 256 MiB (runaway allocation)");
+    LeaveDoomed();
+  }
+  const char msg[] = "simninja: arena exhausted outside a simulated process\n";
+  if (write(2, msg, sizeof msg - 1)) {}
+  ::syscall(SYS_exit_group, 2);
+  __builtin_unreachable();
+}
+
 struct Sys { bool doomed; int inject; };
 static int DeliverableSignal(uint64_t mask_blocked);
 static bool DeliverSignals(uint64_t mask_blocked, bool can_leave);
